@@ -11,6 +11,10 @@ Parsed with `ast` only (nothing is imported or executed), fail closed:
                 together with the shapes of the flattening and of the rebuilt geometry
                     flat = [atom_id for frag in self.fragment_atoms for atom_id in frag]
                     new_geometry = [self.molecule._atom[atom_id] for atom_id in flat]
+  optimizer_checks_initial / optimizer_tol
+                DMETProblemDecomposition._default_optimizer: exactly one call scipy.optimize.newton(<f>, var_params, tol=<T>)
+                (any other keyword, e.g. maxiter / disp, is refused: it changes when the search gives up and whether it says so),
+                optionally preceded by   c = func(var_params);  if abs(c) < <T>: return var_params
   oniom_copies  whether ONIOMProblemDecomposition.distribute_atoms gives a selected_atoms=None fragment a COPY of
                 self.geometry (list(self.geometry) / self.geometry[:] / self.geometry.copy()) or the list object itself
 
@@ -24,7 +28,8 @@ from translator.common import TranslateError, parse, find_def
 DMET = "tangelo/problem_decomposition/dmet/dmet_problem_decomposition.py"
 ONIOM = "tangelo/problem_decomposition/oniom/oniom_problem_decomposition.py"
 
-FALLBACK = {"dmet_checks": ["ChkHigher", "ChkNegative", "ChkOnce", "ChkCover"], "oniom_copies": True}
+FALLBACK = {"dmet_checks": ["ChkHigher", "ChkNegative", "ChkOnce", "ChkCover"], "oniom_copies": True,
+            "optimizer_checks_initial": True, "optimizer_tol": 1e-5}
 
 
 def _u(node):
@@ -103,12 +108,64 @@ def _oniom_copies(repo):
     raise TranslateError("distribute_atoms: unrecognised value for the whole-system geometry: %s" % ast.unparse(a.value))
 
 
+def _const_float(fn, node, what):
+    if isinstance(node, ast.Constant) and isinstance(node.value, (int, float)) and not isinstance(node.value, bool):
+        return float(node.value)
+    if isinstance(node, ast.Name):
+        vals = [n.value for n in ast.walk(fn) if isinstance(n, ast.Assign) and len(n.targets) == 1
+                and isinstance(n.targets[0], ast.Name) and n.targets[0].id == node.id]
+        if len(vals) == 1:
+            return _const_float(fn, vals[0], what)
+    raise TranslateError("_default_optimizer: %s is not a numeric constant: %s" % (what, ast.unparse(node)))
+
+
+def _optimizer(repo):
+    fn = find_def(parse(repo / DMET), "_default_optimizer", cls="DMETProblemDecomposition")
+    args = [a.arg for a in fn.args.args]
+    if args != ["self", "func", "var_params"]:
+        raise TranslateError("_default_optimizer: unexpected signature %s" % args)
+    calls = [n for n in ast.walk(fn) if isinstance(n, ast.Call) and _u(n.func) == "scipy.optimize.newton"]
+    if len(calls) != 1:
+        raise TranslateError("_default_optimizer: expected exactly one scipy.optimize.newton call, found %d" % len(calls))
+    c = calls[0]
+    if len(c.args) != 2 or _u(c.args[1]) != "var_params" or [k.arg for k in c.keywords] != ["tol"]:
+        raise TranslateError("_default_optimizer: newton is not called as newton(<f>, var_params, tol=<T>): %s" % ast.unparse(c))
+    tol = _const_float(fn, c.keywords[0].value, "tol")
+    rets = [n for n in ast.walk(fn) if isinstance(n, ast.Return)]
+    ifs = [n for n in fn.body if isinstance(n, ast.If)]
+    if any(isinstance(n, (ast.Try, ast.While, ast.For)) for n in ast.walk(fn)):
+        raise TranslateError("_default_optimizer: unexpected control flow")
+    if not ifs:
+        if len(rets) != 1:
+            raise TranslateError("_default_optimizer: expected a single return")
+        return False, tol
+    if len(ifs) != 1 or ifs[0].orelse or len(ifs[0].body) != 1 or _u(ifs[0].body[0]) != "returnvar_params" or len(rets) != 2:
+        raise TranslateError("_default_optimizer: unrecognised guard before the root search")
+    t = ifs[0].test
+    if not (isinstance(t, ast.Compare) and len(t.ops) == 1 and isinstance(t.ops[0], ast.Lt) and isinstance(t.left, ast.Call)
+            and _u(t.left.func) == "abs" and len(t.left.args) == 1 and isinstance(t.left.args[0], ast.Name)):
+        raise TranslateError("_default_optimizer: guard is not `abs(<cost>) < <T>`: %s" % ast.unparse(t))
+    cost = t.left.args[0].id
+    src = [n.value for n in fn.body if isinstance(n, ast.Assign) and len(n.targets) == 1 and isinstance(n.targets[0], ast.Name)
+           and n.targets[0].id == cost]
+    if len(src) != 1 or _u(src[0]) != "func(var_params)":
+        raise TranslateError("_default_optimizer: %s is not func(var_params)" % cost)
+    if _const_float(fn, t.comparators[0], "guard tolerance") != tol:
+        raise TranslateError("_default_optimizer: guard tolerance differs from newton's tol")
+    return True, tol
+
+
 def extract(repo):
-    return {"dmet_checks": _dmet_checks(repo), "oniom_copies": _oniom_copies(repo)}
+    guard, tol = _optimizer(repo)
+    return {"dmet_checks": _dmet_checks(repo), "oniom_copies": _oniom_copies(repo),
+            "optimizer_checks_initial": guard, "optimizer_tol": tol}
 
 
 def emit(facts):
     return ("(* generated by translator/decomp_facts.py from the working tree of the repository; do not edit *)\n"
             "From Coq Require Import List.\nFrom Tangelo Require Import Chem.Decomp.\nImport ListNotations.\n"
             "Definition dmet_checks : list dmet_check := [%s].\n"
-            "Definition oniom_copies : bool := %s.\n" % ("; ".join(facts["dmet_checks"]), "true" if facts["oniom_copies"] else "false"))
+            "Definition oniom_copies : bool := %s.\n"
+            "Definition optimizer_checks_initial : bool := %s.\n"
+            % ("; ".join(facts["dmet_checks"]), "true" if facts["oniom_copies"] else "false",
+               "true" if facts["optimizer_checks_initial"] else "false"))
